@@ -494,8 +494,9 @@ def _make_ext():
         "ParseBaseException": ExtType("ParseBaseException"),
     }
     ext["pyparsing"] = ExtMod("pyparsing", pp_attrs)
-    sym_float = ExtType("sympy.Float")
-    ext["sympy"] = ExtMod("sympy", {"core": ExtMod("sympy.core", {"numbers": ExtMod("sympy.core.numbers", {"Float": sym_float}), "symbol": ExtMod("sympy.core.symbol", {"Symbol": ExtType("sympy.Symbol")})})})
+    from .ext_sympy import make_sympy
+
+    ext["sympy"] = make_sympy()
     ext["scipy.optimize"] = ExtMod("scipy.optimize", {})
     ext["scipy"] = ExtMod("scipy", {})
     ext["json"] = ExtMod("json", {})
